@@ -185,8 +185,9 @@ class Evaluator:
     Anything else becomes None (= not representable; the caller reports *undecided*).
     """
 
-    def __init__(self, tu, var=None, member=None, call=None, use_cv=True):
+    def __init__(self, tu, var=None, member=None, call=None, use_cv=True, on_sub=None):
         self.tu = tu
+        self.on_sub = on_sub      # on_sub(node, a, b): told about every subtraction `a - b` that is evaluated
         self.var = var or (lambda n, d: None)
         self.member = member or (lambda n: None)
         self.call = call or (lambda n: None)
@@ -263,6 +264,8 @@ class Evaluator:
             if a is None or b is None:
                 return None
             op = n['opcode']
+            if op == '-' and self.on_sub is not None:
+                self.on_sub(n, a, b)
             return a + b if op == '+' else a - b if op == '-' else a * b
         if k == 'ConditionalOperator':
             ks = tu.kids(n)
@@ -401,3 +404,42 @@ def implies_le(constraints, need):
             if v == 'exact':
                 break
     return best if best else (None, None, None)
+
+
+# =====================================================================================================
+#  bounds of a polynomial over unsigned atoms (interval reasoning, no solver)
+# =====================================================================================================
+def upper_bound(poly, facts, hi, max_facts=2):
+    """An integer B with poly <= B for all values of the atoms in [0, hi] that satisfy the facts (each fact is a
+    Poly F meaning F <= 0), or None.  Method: poly = (poly - sum S) + sum S <= poly - sum S for any subset S of the
+    facts; every candidate is bounded term-wise (positive coefficients at hi, negative at 0); linear terms only."""
+    from itertools import combinations
+    best = None
+    cands = [Poly()]
+    for r in range(1, max_facts + 1):
+        for combo in combinations(facts, r):
+            acc = Poly()
+            for f in combo:
+                acc = acc + f
+            cands.append(acc)
+    for acc in cands:
+        q = poly - acc
+        b = 0
+        ok = True
+        for mon, c in q.t.items():
+            if len(mon) == 0:
+                b += c
+            elif len(mon) == 1:
+                if c > 0:
+                    b += c * hi
+            else:
+                ok = False
+                break
+        if ok and (best is None or b < best):
+            best = b
+    return best
+
+
+def lower_bound(poly, facts, hi, max_facts=2):
+    u = upper_bound(-poly, facts, hi, max_facts)
+    return None if u is None else -u
